@@ -12,7 +12,7 @@ KINDS = ['mixed', 'worddup', 'fwd', 'mixed', 'worddup', 'addonly', 'fwd', 'mixed
 
 
 def run(ctx):
-    return mc.generic_run(ctx, 'C10', KINDS, n_quick=12, n_thorough=400)
+    return mc.generic_run(ctx, 'C10', KINDS, n_quick=40, n_thorough=400)
 
 
 def replay(ctx, payload):
